@@ -1244,6 +1244,10 @@ class PrivKey(PubKey):
         pk.s2k = copy.copy(self.s2k)
         pk.encbytes = copy.copy(self.encbytes)
         pk.chksum = copy.copy(self.chksum)
+        if pk.s2k:
+            # the copy of a passphrase-protected key is a locked key, also when it is taken while the original is
+            # unlocked: no unlock scope would ever wipe the decrypted secret fields of the copy again
+            pk.clear()
         return pk
 
     @abc.abstractmethod
